@@ -8,9 +8,9 @@ def register(prop, J):
               "unset / set to zero value, array append / remove / swap, map add / remove / rename, union member switch / unset, enum "
               "symbol, fixed byte), possibly chained}; all pairs and triples; every case is non-trivial; distinct by (type, value, mutation kinds)",
          jobs=[
-             J("equals-v2", "v2", "codecprops", "^TestC10", checks=(12000, 600000), shards=(4, 16), prepare="prepare_codec",
+             J("equals-v2", "v2", "codecprops", "^TestC10", checks=(12000, 2400000), shards=(4, 16), prepare="prepare_codec",
                extra_pkgs=["dyn", "gendrv"], timeout=(900, 3000)),
-             J("equals-v1", "v1", "codecprops", "^TestC10", checks=(8000, 300000), shards=(4, 16), prepare="prepare_codec",
+             J("equals-v1", "v1", "codecprops", "^TestC10", checks=(8000, 1200000), shards=(4, 16), prepare="prepare_codec",
                extra_pkgs=["dyn", "gendrv"], timeout=(900, 3000)),
          ],
          level_text="relational laws over generated pools: reflexive (NaN-free), symmetric, transitive, insensitive to insertion order "
